@@ -24,32 +24,37 @@ def main():
             continue
         tmp = tempfile.mkdtemp(prefix="srx_mut_")
         try:
-            repo = os.path.join(tmp, "repo")
-            shutil.copytree("/repo", repo, ignore=shutil.ignore_patterns(".git", "__pycache__", "docs", "*.pyc"))
-            for (f, old, new) in m["edits"]:
-                p = os.path.join(repo, f)
-                s = open(p).read()
-                assert s.count(old) >= 1, (m["name"], f, "pattern not found")
-                s = s.replace(old, new) if m.get("all") else s.replace(old, new, 1)
-                open(p, "w").write(s)
-            env = dict(os.environ, SRX_REPO=repo, SRX_OUT=os.path.join(tmp, "out"))
-            for pid in m["props"]:
-                cmd = [os.path.join(VERIF, "bin", "check"), pid, "--tier", m.get("tier", "quick")]
-                if m.get("only"):
-                    cmd += ["--only", m["only"]]
-                r = subprocess.run(cmd, env=env, capture_output=True, text=True)
-                vio = [l for l in r.stdout.splitlines() if l.startswith("VIOLATION")]
-                caught = r.returncode == 1 and bool(vio)
-                expect = m.get("expect", "caught")
-                ok = (caught and expect == "caught") or (not caught and r.returncode == 0 and expect == "quiet")
-                last = r.stdout.strip().splitlines()[-1] if r.stdout.strip() else r.stderr[-300:]
-                detail = ""
-                for l in r.stdout.splitlines():
-                    if l.startswith("  check="):
-                        detail = l.strip()[:160]
-                        break
-                print("%-44s %-4s rc=%d %-7s %s | %s | %s" % (m["name"], pid, r.returncode, "OK" if ok else "**BAD**", expect, detail, last[:150]), flush=True)
-                rows.append(dict(name=m["name"], prop=pid, rc=r.returncode, ok=ok, expect=expect))
+          try:
+              repo = os.path.join(tmp, "repo")
+              shutil.copytree("/repo", repo, ignore=shutil.ignore_patterns(".git", "__pycache__", "docs", "*.pyc"))
+              for (f, old, new) in m["edits"]:
+                  p = os.path.join(repo, f)
+                  s = open(p).read()
+                  if s.count(old) < 1:
+                      raise LookupError("pattern not found in %s" % f)
+                  s = s.replace(old, new) if m.get("all") else s.replace(old, new, 1)
+                  open(p, "w").write(s)
+              env = dict(os.environ, SRX_REPO=repo, SRX_OUT=os.path.join(tmp, "out"))
+              for pid in m["props"]:
+                  cmd = [os.path.join(VERIF, "bin", "check"), pid, "--tier", m.get("tier", "quick")]
+                  if m.get("only"):
+                      cmd += ["--only", m["only"]]
+                  r = subprocess.run(cmd, env=env, capture_output=True, text=True)
+                  vio = [l for l in r.stdout.splitlines() if l.startswith("VIOLATION")]
+                  caught = r.returncode == 1 and bool(vio)
+                  expect = m.get("expect", "caught")
+                  ok = (caught and expect == "caught") or (not caught and r.returncode == 0 and expect == "quiet")
+                  last = r.stdout.strip().splitlines()[-1] if r.stdout.strip() else r.stderr[-300:]
+                  detail = ""
+                  for l in r.stdout.splitlines():
+                      if l.startswith("  check="):
+                          detail = l.strip()[:160]
+                          break
+                  print("%-44s %-4s rc=%d %-7s %s | %s | %s" % (m["name"], pid, r.returncode, "OK" if ok else "**BAD**", expect, detail, last[:150]), flush=True)
+                  rows.append(dict(name=m["name"], prop=pid, rc=r.returncode, ok=ok, expect=expect))
+          except LookupError as e:
+            print("%-44s STALE   %s" % (m["name"], e), flush=True)
+            rows.append(dict(name=m["name"], prop="-", rc=-1, ok=False, expect="stale"))
         finally:
             shutil.rmtree(tmp, ignore_errors=True)
     bad = [r for r in rows if not r["ok"]]
